@@ -133,10 +133,15 @@ type dtEnum struct {
 	unrollTables bool
 	tables       map[types.Object]*ast.CompositeLit
 	loopK        []dtLoopK
+	// closures: function literals bound to a local variable exactly once (filled on demand by closureDecl
+	// from closureFiles, the syntax of the package under analysis; empty = closures are not followed)
+	closures     map[types.Object]*ast.FuncDecl
+	closureFiles []*ast.File
 	// boolReturns: a non-constant boolean result splits the path (the path then returns true or false)
 	boolReturns bool
-	// constStrings: named string constants of the analysed module print as their literal value
+	// constStrings / constInts: named string / integer constants of the analysed module print as their value
 	constStrings bool
+	constInts    bool
 }
 
 func newDT(info *types.Info) *dtEnum {
@@ -164,6 +169,9 @@ func (d *dtEnum) canon(p *dtPath, e ast.Expr) string {
 			}
 			if k, isConst := obj.(*types.Const); isConst && d.constStrings && k.Val().Kind() == constant.String && k.Pkg() != nil && strings.HasPrefix(k.Pkg().Path(), modPath) {
 				return strconv.Quote(constant.StringVal(k.Val()))
+			}
+			if k, isConst := obj.(*types.Const); isConst && d.constInts && k.Val().Kind() == constant.Int && k.Pkg() != nil && strings.HasPrefix(k.Pkg().Path(), modPath) {
+				return k.Val().ExactString()
 			}
 			if v, ok := obj.(*types.Var); ok && d.absVars && !v.IsField() && v.Pkg() != nil && v.Parent() != v.Pkg().Scope() {
 				return "var<" + shortType(v.Type()) + ">"
@@ -364,6 +372,44 @@ func (d *dtEnum) cond(p *dtPath, e ast.Expr, k func(p *dtPath, v bool)) {
 				k(p, x.Name == "true")
 				return
 			}
+		}
+	}
+	// a call of a followable boolean function in condition position (also as the right operand of && / ||,
+	// where hoisting out of the statement would be wrong): decided inside the callee
+	if call, ok := ast.Unparen(e).(*ast.CallExpr); ok && d.hoistCalls && d.callInline != nil && d.canHoist(p, call, nil) {
+		pos := e.Pos()
+		if d.follow(p, call, func(q *dtPath, rets []string) {
+			v := "unknown"
+			if len(rets) > 0 {
+				v = rets[0]
+			}
+			switch v {
+			case "true":
+				k(q, true)
+			case "false":
+				k(q, false)
+			default:
+				if q.sub == nil {
+					q.sub = map[*ast.CallExpr]string{}
+				}
+				q.sub[call] = v
+				neg := false
+				if strings.HasPrefix(v, "!") && !strings.Contains(v, " ") {
+					v, neg = v[1:], true
+				}
+				if av, known := q.atom(v); known {
+					k(q, av != neg)
+					return
+				}
+				t := q.clone()
+				t.Atoms = append(t.Atoms, dtAtom{v, true, pos, false, len(q.Steps)})
+				k(t, !neg)
+				f := q.clone()
+				f.Atoms = append(f.Atoms, dtAtom{v, false, pos, false, len(q.Steps)})
+				k(f, neg)
+			}
+		}) {
+			return
 		}
 	}
 	s := d.canon(p, e)
@@ -1205,10 +1251,14 @@ func (d *dtEnum) follow(p *dtPath, call *ast.CallExpr, k func(q *dtPath, rets []
 		return false
 	}
 	fn := calleeFunc(d.info, call)
+	var fd *ast.FuncDecl
 	if fn == nil {
-		return false
+		// a local closure (v := func(..) {..}; v(..)): followed like a private helper; what it captures is
+		// read from the caller's environment
+		fd = d.closureDecl(call)
+	} else {
+		fd = d.callInline[fn]
 	}
-	fd := d.callInline[fn]
 	if fd == nil {
 		return false
 	}
@@ -1495,4 +1545,70 @@ func literalTables(info *types.Info, fd *ast.FuncDecl) map[types.Object]*ast.Com
 		}
 	}
 	return out
+}
+
+// closureDecl returns, for a call v(..) of a local variable that is defined exactly once, as a function
+// literal, that literal in the form of a declaration (nil otherwise).
+func (d *dtEnum) closureDecl(call *ast.CallExpr) *ast.FuncDecl {
+	id, ok := ast.Unparen(call.Fun).(*ast.Ident)
+	if !ok {
+		return nil
+	}
+	obj, ok := d.info.Uses[id].(*types.Var)
+	if !ok || obj.IsField() || obj.Pkg() == nil || obj.Parent() == obj.Pkg().Scope() {
+		return nil
+	}
+	if d.closures == nil {
+		d.closures = map[types.Object]*ast.FuncDecl{}
+		count := map[types.Object]int{}
+		lits := map[types.Object]*ast.FuncLit{}
+		d.scanClosures(count, lits)
+		for o, lit := range lits {
+			if count[o] == 1 {
+				d.closures[o] = &ast.FuncDecl{Name: ast.NewIdent(o.Name()), Type: lit.Type, Body: lit.Body}
+			}
+		}
+	}
+	return d.closures[obj]
+}
+
+// scanClosures counts the assignments of every local in the analysed package's syntax (reached through the
+// positions recorded in info.Defs' identifiers is not possible, so the rule's package hands its files over
+// in closureFiles) and remembers those whose value is a function literal.
+func (d *dtEnum) scanClosures(count map[types.Object]int, lits map[types.Object]*ast.FuncLit) {
+	for _, f := range d.closureFiles {
+		ast.Inspect(f, func(n ast.Node) bool {
+			switch x := n.(type) {
+			case *ast.AssignStmt:
+				for i, l := range x.Lhs {
+					lid, ok := l.(*ast.Ident)
+					if !ok {
+						continue
+					}
+					o := objOf(d.info, lid)
+					if o == nil {
+						continue
+					}
+					count[o]++
+					if len(x.Lhs) == len(x.Rhs) {
+						if lit, ok := ast.Unparen(x.Rhs[i]).(*ast.FuncLit); ok {
+							lits[o] = lit
+						}
+					}
+				}
+			case *ast.ValueSpec:
+				for i, nm := range x.Names {
+					if o := d.info.Defs[nm]; o != nil {
+						count[o]++
+						if i < len(x.Values) {
+							if lit, ok := ast.Unparen(x.Values[i]).(*ast.FuncLit); ok {
+								lits[o] = lit
+							}
+						}
+					}
+				}
+			}
+			return true
+		})
+	}
 }
